@@ -4,6 +4,7 @@ import (
 	"bytes"
 	"encoding/json"
 	"fmt"
+	"github.com/mosaicnetworks/babble/src/peers"
 	stdnet "net"
 	"os"
 	"regexp"
@@ -689,6 +690,8 @@ type byzCase struct {
 	// restart: node 0 keeps its history in a database; after the continuation it is stopped and bootstrapped from it
 	// and must know every event and re-deliver every block it had
 	restart bool
+	// join != nil: a stranger's well-formed JoinRequest (signed with the key it names) delivered to node 0 as an RPC
+	join *hg.InternalTransaction
 }
 
 func byzCases() []byzCase {
@@ -789,6 +792,15 @@ func byzCases() []byzCase {
 		cases = append(cases, byzCase{name: "regular event of validator 1 carrying " + sg.name + fmt.Sprintf(" (block %d)", sg.index),
 			sig: &hg.BlockSignature{Validator: sim.PubOf(1), Index: sg.index, Signature: sg.sig}})
 	}
+	// a stranger's JoinRequest whose internal transaction is correctly signed with the key it names but has a type this
+	// version does not define (or asks for the stranger's own removal); it is pooled, gossiped, committed and answered by
+	// the application like any other internal transaction
+	for _, ty := range []int{1, 2, 7, 255} {
+		itx := hg.NewInternalTransaction(hg.TransactionType(ty), *peers.NewPeer(sim.PubHex(7), "addr7", "stranger"))
+		itx.Sign(sim.Key(7))
+		cp := itx
+		cases = append(cases, byzCase{name: fmt.Sprintf("self-signed join request of a stranger with internal-transaction type %d", ty), join: &cp})
+	}
 	return cases
 }
 
@@ -815,7 +827,13 @@ func runByz(it HostileItem, res *HostileResult) {
 			var w *hg.WireEvent
 			var from uint32
 			ok := true
-			if bc.sig != nil {
+			if bc.join != nil {
+				if via != "eager-sync request" {
+					x.Close()
+					continue
+				}
+				via = "join request RPC"
+			} else if bc.sig != nil {
 				if via != "eager-sync request" {
 					x.Close()
 					continue
@@ -832,7 +850,9 @@ func runByz(it HostileItem, res *HostileResult) {
 			fmt.Fprintf(os.Stderr, "ATTEMPT byz %s via %s\n", bc.name, via)
 			cd := commitsDigest(c.Nodes[0])
 			rp := map[string]interface{}{"state": it.State, "kind": "byz", "case": bc.name, "via": via}
-			if bc.sig != nil {
+			if bc.join != nil {
+				c.ProcessRPC(0, "byz join", &net.JoinRequest{InternalTransaction: *bc.join})
+			} else if bc.sig != nil {
 				c.Nodes[1].Node.VSelfSigPool().Add(*bc.sig)
 				x.Step(sched.Action{K: "G", A: 1, B: 0})
 			} else if via == "eager-sync request" {
@@ -864,6 +884,9 @@ func runByz(it HostileItem, res *HostileResult) {
 				twin.Step(sched.Action{K: "G", A: 1, B: 0})
 			}
 			for _, a := range cont {
+				if c.Panic != "" {
+					break
+				}
 				e1 := x.Step(a)
 				e2 := twin.Step(a)
 				if e1 != nil && e2 == nil {
@@ -871,7 +894,16 @@ func runByz(it HostileItem, res *HostileResult) {
 					break
 				}
 			}
-			sr := x.FairSuffix(40)
+			var sr sched.SuffixResult
+			if c.Panic == "" {
+				sr = x.FairSuffix(40)
+			}
+			if c.Panic != "" {
+				// (a panic inside a critical section leaves the node's lock held: the instance is abandoned)
+				res.Panics++
+				viol("panic-afterwards:"+panicKey(c.Panic), fmt.Sprintf("after (%s, delivered as %s) a node panics while the cluster processes valid exchanges: %s", bc.name, via, firstLines(c.Panic, 1)), map[string]interface{}{"state": it.State, "kind": "byz", "case": bc.name, "via": via, "stack": firstLines(c.Panic, 40)})
+				continue
+			}
 			if !sr.Quiescent && !x.Dead() {
 				if st := twin.FairSuffix(40); st.Quiescent {
 					viol("no-progress-afterwards", fmt.Sprintf("after (%s, delivered as %s) the cluster does not become quiescent within 40 fair cycles (%s); a twin that never saw it does", bc.name, via, sr.Reason), rp)
